@@ -23,6 +23,11 @@ static ALLOC: simcore::quarantine::Quarantine = simcore::quarantine::Quarantine;
 fn main() {
     // freed memory is filled with 0xDD: code that goes on using a freed operation or buffer trips over it
     simcore::quarantine::set_poison(true);
+    // VERIF_DEBUG_TRACING=1: print what the libraries under test report through `tracing` (quinn-proto's
+    // frame-level trace) to stdout as it happens; diagnosis only
+    if std::env::var_os("VERIF_DEBUG_TRACING").is_some() {
+        tracing_subscriber::fmt().with_max_level(tracing::Level::TRACE).without_time().with_ansi(false).with_writer(std::io::stdout).init();
+    }
     // compio caches the io_uring opcode probe in a process-wide static: take that once, outside any
     // run, so that no run depends on whether it was the first one in its process
     simkernel::begin(simkernel::KConfig::default());
